@@ -228,8 +228,13 @@ type c16Result struct {
 func extractOne(archName, path string) (res c16Result) {
 	res = c16Result{File: path, Arch: archName}
 	info := arch.X86_64
-	if archName == "i386" {
+	switch archName {
+	case "i386":
 		info = arch.I386
+	case "x32":
+		info = arch.X32 // shares the audit architecture with x86_64 and is accepted by ExtractSyscalls
+	case "arm":
+		info = arch.ARM // not supported by the extractor: must be an error
 	}
 	defer func() {
 		if e := recover(); e != nil {
@@ -324,6 +329,12 @@ func c16() {
 	add := func(c *c16Case) int { c.prefixOf = -1; cases = append(cases, c); return len(cases) - 1 }
 	r0 := caseRand(run, 0)
 
+	// (0) calls for other architectures interleaved with the judged ones (same process): they must not influence
+	// what later x86_64/i386 extractions report
+	for w := 0; w < 64; w++ {
+		txt, _ := renderListing(genFunctions(r0, 4, tables["x86_64"]), false, tables["x86_64"], r0)
+		add(&c16Case{kind: "other-arch-call", arch: []string{"x32", "arm", "x32", "i386"}[w%4], text: []byte(txt)})
+	}
 	// (1) model-generated listings, with function-boundary prefixes
 	nModel := run.N(6000, 120000)
 	for i := 0; i < nModel; i++ {
@@ -539,6 +550,13 @@ func c16() {
 				continue
 			}
 			run.Count("unreadable_texts_reported_as_error", 1)
+		}
+		if c.arch == "x32" || c.arch == "arm" {
+			if c.arch == "arm" && res.Nil {
+				run.Violation("unsupported-arch-extracts", "ExtractSyscalls for an architecture the extractor does not support returns a nil error", replay)
+			}
+			run.Count("other_arch_calls", 1)
+			continue
 		}
 		// every reported syscall exists in the oracle table under the reported name
 		bad := false
